@@ -152,6 +152,9 @@ func genDerivedSolid(rng *rand.Rand, kind int) *primShape {
 		if kind%nDerivedSolidKinds == 9 {
 			k4 = ri(rng, 1, 3) // at most 3/4: boxes of side >= 2 keep an interior, thinner ones become empty
 			hi[rng.Intn(3)]++
+			if rng.Intn(3) == 0 {
+				k4 = ri(rng, 4, 9) // more than half of some side: nothing is left, the bounds must still be a box
+			}
 		}
 		mesh := rng.Intn(2) == 0
 		_, cname := boxCollider3(lo, hi, mesh)
@@ -180,6 +183,9 @@ func genDerivedSolid(rng *rand.Rand, kind int) *primShape {
 		if kind%nDerivedSolidKinds == 12 {
 			k4 = ri(rng, 1, 3)
 			hi[rng.Intn(2)]++
+			if rng.Intn(3) == 0 {
+				k4 = ri(rng, 4, 9)
+			}
 		}
 		mesh := rng.Intn(2) == 0
 		_, cname := boxCollider2(lo, hi, mesh)
